@@ -101,6 +101,32 @@ class TracedUnixTransport(UnixTransport):
         super().close()
 
 
+class ShmUnix:
+    """What a client that brings its own shared-memory segment hands to RpcConnection: the real UnixTransport plus a
+    `.shm` (the client duck-types on that attribute; the serve loop attaches the segment the requests then name)."""
+
+    def __init__(self, inner: UnixTransport, seg) -> None:
+        self._inner, self._seg = inner, seg
+
+    reader = property(lambda self: self._inner.reader)
+    writer = property(lambda self: self._inner.writer)
+    shm = property(lambda self: self._seg)
+
+    def close(self) -> None:
+        self._inner.close()
+
+
+def _set_threshold(value) -> None:
+    import vgi_rpc.shm as S
+
+    if value is None:
+        os.environ.pop("VGI_RPC_SHM_MIN_BATCH_BYTES", None)
+    else:
+        os.environ["VGI_RPC_SHM_MIN_BATCH_BYTES"] = str(value)
+    resolve = getattr(S, "_resolve_shm_min_batch_bytes", None)
+    S.SHM_MIN_BATCH_BYTES = resolve() if resolve else (value if value is not None else 128 * 1024)
+
+
 class _Sem:
     def __init__(self, w, value: int = 1) -> None:
         self.w, self.value, self.name = w, value, "SEM"
@@ -236,9 +262,10 @@ class ConnWorld:
     pr / xr (open a header-less producer / exchange whose init raises; the client parks at `opened` afterwards, so that
     other threads can run between the rejection and the session's first t / e / c = the stray input stream)."""
 
-    def __init__(self, scripts: dict[int, list[str]], max_connections: int | None) -> None:
+    def __init__(self, scripts: dict[int, list[str]], max_connections: int | None, shm_conns=()) -> None:
         self.sched = Scheduler(step_timeout=20.0)
         self.scripts = scripts
+        self.shm_conns = set(shm_conns)      # connections whose client brings its own segment
         self.max_connections = max_connections
         self.backlog: list[int] = []
         self.listener_closed = False
@@ -278,6 +305,7 @@ class ConnWorld:
         self.ns = ns
         self.listener = None          # created, bound and listened on by serve_unix itself
         self.entry: dict = {}         # what the public entry point handed to the accept loop
+        self.via_shm = 0
         import types
 
         self.sock_ns = types.SimpleNamespace(**{k: getattr(socket, k) for k in dir(socket) if not k.startswith("__")})
@@ -287,6 +315,8 @@ class ConnWorld:
     # ------------------------------------------------------------------ lifecycle
     def __enter__(self) -> "ConnWorld":
         _CUR["w"] = self
+        if self.shm_conns:
+            _set_threshold(1)                # every non-empty batch of those connections goes through their segment
         self._saved = (T.socket, T.UnixTransport, T._serve_socket_threaded)
         real_loop = T._serve_socket_threaded
 
@@ -316,6 +346,8 @@ class ConnWorld:
         finally:
             T.threading = _REAL
             T.socket, T.UnixTransport, T._serve_socket_threaded = self._saved
+            if self.shm_conns:
+                _set_threshold(None)
             _CUR["w"] = None
             shutil.rmtree(self.dir, ignore_errors=True)
 
@@ -333,6 +365,7 @@ class ConnWorld:
         s = ParkConn(socket.AF_UNIX, socket.SOCK_STREAM)
         s.cid = c
         tag = tag_of(c)
+        seg = None
         obs = lambda kind, v: self.sched.emit(e="Obs", c=c, kind=kind, tag=tag, v=v)  # noqa: E731
         try:
             s.connect(self.path)
@@ -340,16 +373,22 @@ class ConnWorld:
             self.sched.emit(e="Connect", c=c)
             self.sched.yield_point("connected")
             sess = None
-            with RpcConnection(IsoSvc, UnixTransport(s)) as px:
+            transport = UnixTransport(s)
+            if c in self.shm_conns:
+                from vgi_rpc.shm import HEADER_SIZE, ShmSegment
+
+                seg = ShmSegment.create(HEADER_SIZE + 256 * 1024)
+                transport = ShmUnix(transport, seg)
+            with RpcConnection(IsoSvc, transport) as px:
                 for i, op in enumerate(self.scripts[c]):
                     try:
                         if op == "u":
                             obs("r", px.u(tag=tag, i=i))
                         elif op == "pt":
                             sess = px.p(tag=tag)
-                            obs("d", sess.tick().batch.column("v")[0].as_py())
+                            obs("d", self._val(sess.tick()))
                         elif op == "t":
-                            obs("d", sess.tick().batch.column("v")[0].as_py())
+                            obs("d", self._val(sess.tick()))
                         elif op == "xe":
                             sess = px.x(tag=tag)
                             obs("d", self._ex(sess, i))
@@ -380,11 +419,25 @@ class ConnWorld:
                 s.close()
             except OSError:
                 pass
+        finally:
+            if seg is not None:
+                for fn in (seg.close, seg.unlink):
+                    try:
+                        fn()
+                    except Exception:  # noqa: BLE001
+                        pass
 
     @staticmethod
-    def _ex(sess, i: int) -> int:
-        ab = sess.exchange(AnnotatedBatch(batch=pa.RecordBatch.from_pydict({"a": [i + 1]}, schema=INP)))
-        return ab.batch.column("v")[0].as_py()
+    def _val(ab) -> int:
+        v = ab.batch.column("v")[0].as_py()
+        if ab.custom_metadata is not None and ab.custom_metadata.get(b"vgi_rpc.shm_source") is not None:
+            _CUR["w"].via_shm += 1          # evidence that the connection's segment really carried the batch
+        ab.release()
+        return v
+
+    @classmethod
+    def _ex(cls, sess, i: int) -> int:
+        return cls._val(sess.exchange(AnnotatedBatch(batch=pa.RecordBatch.from_pydict({"a": [i + 1]}, schema=INP))))
 
     # ------------------------------------------------------------------ stepping
     def step(self, name: str) -> str:
@@ -399,7 +452,7 @@ def _tname(k: str, c: int) -> str:
     return "loop" if k == "L" else f"{'c' if k == 'C' else 'h'}{c}"
 
 
-def run_schedule(scripts: dict[int, list[str]], mx: int, steps: list[tuple]) -> dict:
+def run_schedule(scripts: dict[int, list[str]], mx: int, steps: list[tuple], sh=()) -> dict:
     """Force one interleaving onto the real threads.  steps: (k, c, expected_label[, enabled_after]) with k in
     L | C | H | X; enabled_after = the threads the spec says can move next.  After every step the park label and the set
     of runnable real threads are compared with the spec; at the first divergence (= drift) a thread that can move
@@ -411,7 +464,7 @@ def run_schedule(scripts: dict[int, list[str]], mx: int, steps: list[tuple]) -> 
     trace: list[dict] = []
     drift = None
     hang = None
-    with ConnWorld(scripts, mx if mx > 0 else None) as w:
+    with ConnWorld(scripts, mx if mx > 0 else None, sh) as w:
         sched = w.sched
 
         def all_served():
@@ -471,6 +524,7 @@ def run_schedule(scripts: dict[int, list[str]], mx: int, steps: list[tuple]) -> 
         labels = {n: w.label(n) for n in stuck}
         events = list(sched.events)
         entry = dict(w.entry)
+        via_shm = w.via_shm
         errors = dict(w.client_errors)
         terrs = {n: f"{type(e).__name__}: {e}" for n, e in sched.errors.items()}
     n = max(scripts)
@@ -486,10 +540,10 @@ def run_schedule(scripts: dict[int, list[str]], mx: int, steps: list[tuple]) -> 
             mon.append({"e": e["e"], "c": e["c"]})
         elif e["e"] in ("MBegin", "MEnd"):
             mon.append({"e": e["e"], "c": tagc.get(e["tag"], 0)})
-    return {"trace": trace, "drift": drift, "hang": hang, "stuck": labels, "obs": obs, "done": done, "mon": mon, "entry": entry,
+    return {"trace": trace, "drift": drift, "hang": hang, "stuck": labels, "obs": obs, "done": done, "mon": mon, "entry": entry, "via_shm": via_shm,
             "client_errors": errors, "thread_errors": terrs, "n": n}
 
 
-def run_solo(c: int, script: list[str]) -> list:
-    r = run_schedule({c: script}, 0, [])
+def run_solo(c: int, script: list[str], shm: bool = False) -> list:
+    r = run_schedule({c: script}, 0, [], sh=(c,) if shm else ())
     return r["obs"][c]
